@@ -144,12 +144,12 @@ func b2i(b bool) int {
 }
 
 type scase struct {
-	Op     string `json:"op"`
-	Pos    string `json:"position"`
-	Peers  int    `json:"peers"`
-	Rdrs   int    `json:"blocked_readers"`
-	Depth  int    `json:"queue_depth"`
-	Rep    int    `json:"rep"`
+	Op    string `json:"op"`
+	Pos   string `json:"position"`
+	Peers int    `json:"peers"`
+	Rdrs  int    `json:"blocked_readers"`
+	Depth int    `json:"queue_depth"`
+	Rep   int    `json:"rep"`
 }
 
 func enumerate(tier string) []scase {
